@@ -150,13 +150,16 @@ func execC05(c *Ctx) {
 		liveNames[n.name] = n
 	}
 	// precondition: the undirected "lists" graph on live nodes is connected
-	connected := func() bool {
+	connected := func(aliveOnly bool) bool {
 		if len(live) <= 1 {
 			return true
 		}
 		adj := map[string]map[string]bool{}
 		for _, n := range live {
 			for _, m := range n.memberNames() {
+				if aliveOnly && n.view(m).State != StateAlive {
+					continue
+				}
 				if _, ok := liveNames[m]; ok && m != n.name {
 					if adj[n.name] == nil {
 						adj[n.name] = map[string]bool{}
@@ -183,9 +186,16 @@ func execC05(c *Ctx) {
 		}
 		return len(seen) == len(live)
 	}
-	pre := connected()
+	pre := connected(false)
 	if !pre {
 		c.Reach("precondition_false")
+	}
+	// Known finding C05/connected-only-via-suspect-record: the lists-graph is connected at T_f
+	// only through records that are *suspect* (a suspicion that began during the faults).
+	sig := ""
+	if pre && !connected(true) {
+		sig = "C05/connected-only-via-suspect-record"
+		c.Reach("connected_only_via_suspect_record")
 	}
 	converged := func() (bool, string) {
 		for _, n := range live {
@@ -240,7 +250,7 @@ func execC05(c *Ctx) {
 	if !c.Failed() && !c07 && pre && len(live) >= 1 {
 		ok, why := converged()
 		if !ok {
-			c.Violate("not-converged", "", "", "live views did not converge within W=%v after faults stopped at %v: %s", w, tf, why)
+			c.Violate("not-converged", sig, "", "live views did not converge within W=%v after faults stopped at %v: %s", w, tf, why)
 		}
 	}
 	if convAt >= 0 {
